@@ -9,7 +9,10 @@ Record line := {
   i_has_attrs : bool;
   i_attrs : list attr          (* attribute of every character, from iter() *)
 }.
-Record case := { c_lines : list line }.
+Record case := {
+  c_lines : list line;        (* one parser fed the lines in turn *)
+  c_items : list line         (* the same lines read as input items through SkimItemReader (--ansi): each starts afresh *)
+}.
 
 Fixpoint play (s : pst) (ls : list line) : bool :=
   match ls with
@@ -21,4 +24,5 @@ Fixpoint play (s : pst) (ls : list line) : bool :=
       text_eqb (map fst (iter x)) (i_text l) && play s' r
   end.
 
-Definition check (c : case) : bool := play fresh (c_lines c).
+Definition check (c : case) : bool :=
+  play fresh (c_lines c) && forallb (fun l => play fresh [l]) (c_items c).
